@@ -74,6 +74,9 @@ class LockstepResults:
         self.back = threading.Semaphore(0)
         self.rng = random.Random((self.plan.seed * 1000003 + self.plan.maps * 7919 + self.n * 31 + 17) & 0xFFFFFFFFFFFF)
         self.schedule: list = []
+        self.choices: list[int] = []  # the schedule as data: -1 = start, i = advance task i
+        self.script = list(self.plan.script) if self.plan.script is not None and self.plan.maps == 0 else None
+        self.tparams: dict = {}
         self.timed_out: list[int] = []
         self.max_inflight = 0
         self._expired = expired_factory
@@ -143,7 +146,17 @@ class LockstepResults:
             cands.append("start")
         if not cands:
             return False
-        c = self.rng.choice(cands)
+        if self.script is not None:
+            # explicit schedule; an entry that is not possible (any more) falls back to the
+            # first candidate, so every shortened script is still a legal schedule
+            want = self.script.pop(0) if self.script else None
+            c = cands[0]
+            for x in cands:
+                if (x == "start" and want == -1) or (x != "start" and x.idx == want):
+                    c = x
+        else:
+            c = self.rng.choice(cands)
+        self.choices.append(-1 if c == "start" else c.idx)
         if c == "start":
             self._start(self.tasks[self.next_unstarted])
             self.next_unstarted += 1
@@ -165,6 +178,9 @@ class LockstepResults:
             # where it stands while the rest of the system goes on until the deadline passes
             own = self.rng.choice([0, 0, 1, 2, 3, 4, 5])
             budget = self.rng.choice([0, 1, 2, 3, 5, 8, 13, 21])
+            if self.plan.tparams is not None and str(i) in self.plan.tparams:
+                own, budget = self.plan.tparams[str(i)]
+            self.tparams[str(i)] = [own, budget]
             while budget > 0 and t.state != "done":
                 if not self._step(stalled=t if t.steps >= own else None):
                     break
@@ -194,5 +210,5 @@ class LockstepResults:
         self.plan.record.append({
             "n": self.n, "W": self.W, "lockstep": True, "steps": len(self.schedule),
             "timed_out": list(self.timed_out), "max_inflight": self.max_inflight,
-            "schedule": [list(s) for s in self.schedule],
+            "schedule": [list(s) for s in self.schedule], "choices": list(self.choices), "tparams": dict(self.tparams),
         })
